@@ -103,6 +103,12 @@ func sortOfType(t types.Type) string {
 			return SBool
 		case u.Kind() == types.Uint8:
 			return SBV8
+		case u.Kind() == types.Uint16:
+			return SBV16
+		case u.Kind() == types.Uint32:
+			return SBV32
+		case u.Kind() == types.Uint64 || u.Kind() == types.Uint || u.Kind() == types.Uintptr:
+			return SBV64
 		case u.Info()&types.IsInteger != 0:
 			return SInt
 		case u.Info()&types.IsFloat != 0:
